@@ -22,6 +22,11 @@ fn main() {
     match engine.as_str() {
         "plan" => engines::plan::run(&args, &mut rep),
         "trace" => engines::trace::run(&args, &mut rep),
+        "invariance" => engines::invariance::run(&args, &mut rep),
+        "plan-layout" => {
+            engines::invariance::print_layout(&args);
+            return;
+        }
         _ => {
             eprintln!("unknown engine {:?}", engine);
             std::process::exit(2);
